@@ -53,7 +53,7 @@ def genC18Cases (tier : String) (seed : Nat) : Array Case := Id.run do
     let (s, r1) := (match b % 3 with
       | 0 => genC01 { suffixes := false, maxDepth := 3, maxComps := 6 }
       | 1 => genSupC02 2
-      | _ => genNested { depth := 1, pairs := true }) rng
+      | _ => genNestedSup { depth := 1, pairs := true }) rng
     rng := r1
     if !(supported s) then continue
     let exp := Json.str (showNode (denoteTop s))
